@@ -110,40 +110,46 @@ theorem estimate_inside_its_interval (a : List Rat) (ha : a ≠ []) :
     quantile_mono a (by norm_num) (by norm_num) (by norm_num) hl hm,
     quantile_mono a (by norm_num) (by norm_num) (by norm_num) hm hr⟩
 
-/-! ## what is reported as `fss_params[0]` (a defect of the unchanged tree)
+/-! ## what is reported as `fss_params[0]`
 
-`get_fit_params` overwrites `params_0[0]` in place with the midpoint of the error-rate range when it
-is outside that range, and the bootstrap loop of `fit_fss_params` passes `params_opt` itself as
-`params_0`.  So the reported best-fit threshold is the optimiser's value only when that value lies
-inside the data range; otherwise it silently becomes the midpoint of the range (the other four
-parameters and the `rescaled_p` column keep the values of the discarded fit, and `fit_status` can
-still be 'success').  Replayed on the implementation by the oracle (known finding, class `planted`,
-check `fss-params-overwritten-by-range-midpoint`). -/
+`get_fit_params` starts a fit from the midpoint of the error-rate range when the hint `params_0[0]`
+lies outside that range, and the bootstrap loop of `fit_fss_params` passes `params_opt` itself as
+hint.  Since 182c096 the replacement is made on a copy. -/
 
-/-- the reported value is the optimiser's value when that lies inside the error-rate range of every
-    bootstrap resample (in particular when there is no bootstrap iteration) -/
-theorem reported_threshold_is_fitted (raw : Rat) (bounds : List (Rat × Rat))
-    (h : ∀ b ∈ bounds, b.1 ≤ raw ∧ raw ≤ b.2) : reportedPth (some raw) bounds = some raw := by
+/-- the reported best-fit parameters are exactly the optimiser's, whatever the resamples; each
+    bootstrap fit starts from the optimiser's value, or from the midpoint of its own resample's
+    range when that value lies outside -/
+theorem reported_threshold_is_the_optimisers (raw : Option Rat) (bounds : List (Rat × Rat)) :
+    reportedPth raw bounds = raw ∧ (bootstrapLoop raw bounds).2 = bounds.map (hintFor raw) := by
   unfold reportedPth
-  induction bounds with
-  | nil => rfl
-  | cons b bs ih =>
-    have hb := h b (by simp)
-    simp only [List.foldl_cons, overwriteStep, if_pos hb]
-    exact ih (fun b' hb' => h b' (by simp [hb']))
+  rw [bootstrapLoop_spec]
+  exact ⟨rfl, rfl⟩
 
-/-- ... and it is NOT the optimiser's value as soon as the first resample's range excludes it: the
-    midpoint of that range (which differs from the fitted value) is what later iterations see -/
-theorem reported_threshold_overwritten (raw : Rat) (b : Rat × Rat) (bs : List (Rat × Rat))
+/-- a hint inside the range is used as it is; otherwise the start value is inside the range -/
+theorem start_value_inside_range (c : Rat) (b : Rat × Rat) (hb : b.1 ≤ b.2) :
+    ((b.1 ≤ c ∧ c ≤ b.2) → hintFor (some c) b = some c) ∧
+    ∃ v, hintFor (some c) b = some v ∧ b.1 ≤ v ∧ v ≤ b.2 := by
+  unfold hintFor
+  constructor
+  · intro h; simp [h]
+  · by_cases h : b.1 ≤ c ∧ c ≤ b.2
+    · exact ⟨c, by simp [h], h.1, h.2⟩
+    · refine ⟨(b.1 + b.2) / 2, by simp [h], ?_, ?_⟩ <;> linarith
+
+/-- regression (behaviour before 182c096, `oldReportedPth`): the in-place replacement leaked into
+    the reported value as soon as the first resample's range excluded the fitted threshold -/
+theorem regression_old_reported_threshold_overwritten (raw : Rat) (b : Rat × Rat) (bs : List (Rat × Rat))
     (hout : ¬ (b.1 ≤ raw ∧ raw ≤ b.2)) :
-    reportedPth (some raw) (b :: bs) = reportedPth (some ((b.1 + b.2) / 2)) bs := by
-  simp [reportedPth, overwriteStep, if_neg hout]
+    oldReportedPth (some raw) (b :: bs) = oldReportedPth (some ((b.1 + b.2) / 2)) bs := by
+  simp [oldReportedPth, hintFor, if_neg hout]
 
-/-- witness (numbers of the replayed data set, rounded): the optimiser returns p_th = -0.012 for
-    rates in [0.116347, 0.202323]; 0.159335 is reported -/
-theorem fss_params_overwritten_witness :
+/-- regression witness (numbers of the replayed data set, rounded): the optimiser returned
+    p_th = -0.012 for rates in [0.116347, 0.202323]; 0.159335 was reported, -0.012 is reported now -/
+theorem regression_fss_params_overwritten_witness :
+    oldReportedPth (some (-12 / 1000)) [(116347 / 1000000, 202323 / 1000000), (116347 / 1000000, 202323 / 1000000)]
+      = some (159335 / 1000000) ∧
     reportedPth (some (-12 / 1000)) [(116347 / 1000000, 202323 / 1000000), (116347 / 1000000, 202323 / 1000000)]
-      = some (159335 / 1000000) := by
+      = some (-12 / 1000) := by
   decide +kernel
 
 /-! ## `get_fit_status` -/
